@@ -85,6 +85,21 @@ def Outcome.completes : Outcome C → Bool
   | .done .. => true
   | _ => false
 
+/-- The initiator's side is finished once it has sent act 3 (`runHandshakeAsInitiator` returns nil);
+    it does not learn whether the responder accepts act 3. -/
+def Outcome.initiatorDone : Outcome C → Bool
+  | .done .. => true
+  | .fFail .. => true
+  | .u3Fail .. => true
+  | _ => false
+
+/-- closed formula for the initiator's side: the first three conditions -/
+def expectedInitiatorDone (H : Nat → Nat → C) (n1 : Nat) (p1 : String) (n2 : Nat) (p2 : String)
+    (net : Net C) : Bool :=
+  let m1 := net.f1 ⟨n1, p1⟩
+  let m2 := net.f2 ⟨n2, H m1.nonce n2, p2⟩
+  decide (m1.proto = p2) && decide (m2.proto = p1) && decide (m2.challenge = H n1 m2.nonce)
+
 /-- The property as a closed formula over the delivered messages (the monitor's side):
     the run completes iff both protocol checks and both challenge equations hold. -/
 def expectedComplete (H : Nat → Nat → C) (n1 : Nat) (p1 : String) (n2 : Nat) (p2 : String)
